@@ -3,6 +3,7 @@ package main
 import (
 	"fmt"
 	"iter"
+	"math"
 	"math/bits"
 	"math/rand"
 	"reflect"
@@ -480,8 +481,20 @@ func c02Impl(in []int64) []int64 {
 		l = &c02Cmp[int64]{s: new(listz.SkipListWithCmp[int64, int64]), to: func(x int64) int64 { return x << 31 }, back: func(k int64) int64 { return k >> 31 }, src: src,
 			cmp: func(a, b int64) int { return int(a - b) }}
 	case 5:
-		l = &c02Cmp[int64]{s: new(listz.SkipListWithCmp[int64, int64]), to: ident, back: ident, src: src,
-			cmp: func(a, b int64) int { return int(b - a) }} // reversed; magnitude other than 1 on purpose
+		rev := func(a, b int64) int { return int(b - a) } // reversed; magnitude other than 1 on purpose
+		if (len(ws)+len(ops)/4)%2 == 1 {
+			// the extreme results a comparator may return: math.MinInt for "less" (its negation is itself), MaxInt for "greater"
+			rev = func(a, b int64) int {
+				switch {
+				case b < a:
+					return math.MinInt
+				case b > a:
+					return math.MaxInt
+				}
+				return 0
+			}
+		}
+		l = &c02Cmp[int64]{s: new(listz.SkipListWithCmp[int64, int64]), to: ident, back: ident, src: src, cmp: rev}
 	case 6:
 		l = &c02Cmp[int64]{s: new(listz.SkipListWithCmp[int64, int64]), to: ident, back: ident, src: src,
 			cmp: func(a, b int64) int {
@@ -503,7 +516,7 @@ func c02Impl(in []int64) []int64 {
 
 var c02Names = []string{"Init", "Set", "SetNx", "SetX", "Get", "GetNode", "NodeSetValue", "Len", "Head", "HeadNextWalk", "Remove", "Clear",
 	"Range", "All", "Keys", "Values", "RangeWithStart", "RangeWithRange", "Shape"}
-var c02Kinds = map[int64]string{0: "SkipList[int]", 3: "SkipList[string]", 4: "SkipListWithCmp[int] ascending, keys scaled by 2^31, cmp = a-b", 5: "SkipListWithCmp[int] reversed",
+var c02Kinds = map[int64]string{0: "SkipList[int]", 3: "SkipList[string]", 4: "SkipListWithCmp[int] ascending, keys scaled by 2^31, cmp = a-b", 5: "SkipListWithCmp[int] reversed (cmp = b-a, or MinInt/0/MaxInt when words+ops is odd)",
 	6: "SkipListWithCmp[int] composite(k%4,k)", 7: "SkipListWithCmp[string]"}
 
 func c02Describe(in []int64) string {
@@ -1022,7 +1035,7 @@ func c02Gen(c *Ctx) {
 }
 
 func init() {
-	Register(&Prop{ID: "C02", Num: 2, SpecMode: "equal", Gen: c02Gen, Impl: c02Impl,
+	Register(&Prop{ID: "C02", Pure: true, Num: 2, SpecMode: "equal", Gen: c02Gen, Impl: c02Impl,
 		Shrink: c02Shrink, Describe: c02Describe,
 		Rule: "zero-value matrix (every method alone, after Clear, in pairs) for SkipList[int|string] and SkipListWithCmp under ascending/reversed/composite/string comparators; " +
 			"exhaustive: every sequence up to the tier's length over Set(k, raw height h) k in {1,2,3} h in {1,2,3,32}, Remove k, Clear, SetX, SetNx, RangeWithStart, Init; " +
